@@ -22,7 +22,7 @@ var cssNoiseValues = []string{"red", "RED", "#fff", "10px", "1em", "url(javascri
 // CSSNoiseValues returns the noise values (a copy).
 func CSSNoiseValues() []string { return append([]string{}, cssNoiseValues...) }
 
-var cssUnknownProps = []string{"behavior", "-moz-binding", "zoom", "x-unknown", "colour", "src", "content", "--custom", "c\\6flor", "col\\or", "COLOR", "-webkit-color", "mso-color", "-webkit--moz-color", "prince-color", "color ", " color", "co lor", "", "*color", "_color", "color\\", "font", "position"}
+var cssUnknownProps = []string{"margin-inline-start", "padding-block", "border-inline-end", "color-start", "margin-inline", "inset-block-start", "width-x", "-webkit-margin-start", "behavior", "-moz-binding", "zoom", "x-unknown", "colour", "src", "content", "--custom", "c\\6flor", "col\\or", "COLOR", "-webkit-color", "mso-color", "-webkit--moz-color", "prince-color", "color ", " color", "co lor", "", "*color", "_color", "color\\", "font", "position"}
 
 func encodeEscapes(r *rand.Rand, v string) string {
 	// re-encode some letters as CSS hex escapes with assorted terminators
